@@ -36,6 +36,10 @@ var nsFlag = map[string]uintptr{"user": unix.CLONE_NEWUSER, "pid": unix.CLONE_NE
 func main() {
 	hx.Init()
 	runtime.LockOSThread()
+	// the launcher itself carries supplementary groups: a launch that must end with other (or no) groups has to set them
+	if err := syscall.Setgroups([]int{4242, 4243}); err != nil {
+		panic(err)
+	}
 	scratch := os.Getenv("VERIF_SCRATCH")
 	filter := hx.AllowAll().SockFprog()
 	hx.Cases(func(c map[string]any) map[string]any {
